@@ -163,7 +163,7 @@ func runCone(w *World, cs *Contracts, cone *Cone, tier string, seed int, outDir 
 		}
 		bg := e.Background()
 		for _, o := range obls {
-			run.bgOf[o] = bg
+			run.bgOf[o] = e.BackgroundFor(o)
 		}
 		for t := range e.trustedUsed {
 			run.trusted[t] = true
